@@ -40,12 +40,27 @@ NOTES = {
  'C18-4': 'strengthened: missed at first (the writer-equality leg only used oj.JSON and sen.String); pretty.JSON / pretty.SEN added with every Width within 8 columns of the flat width of the tree and MaxDepth 1-3',
  'C18-5': 'strengthened: missed at first by C18 (gen.Parser.Parse only; C02 and C03 catch it); the parser-equality leg now also reads every rendered tree through ParseReader with one-byte reads on both sides',
  'C20-6': 'strengthened: missed at first (every plan was evaluated with @ = $); a local-context leg evaluates bodies that read @ with @ bound to a value that is not the root and compares value, @ and $ afterwards with asmref.RunLocal',
+ 'C02-7': 'a reuse defect (ForceFloat left set by the error path of Parser.Unmarshal): caught by C07 after its alphabets gained Unmarshal on malformed text for every parser kind and the pooled functions',
+ 'C02-8': 'the same change as C02-5 proposed independently (gen.Parser Reuse map pool): caught by C07',
+ 'C02-9': 'a chunk-boundary defect of oj.Tokenizer (big number, decimal point on the last byte of a read): caught by C03 (joint agreement of all front-ends, reader entry points)',
+ 'C03-7': 'the pending high surrogate of gen.Parser surviving the end of a string: not caught by C03; strengthened C02, which catches it: in the string-pair family the second string now ranges over every two-item sequence (every "bytes before" x "escape after" combination) when the first is a single item',
+ 'C04-7': 'strengthened: missed at first (chain depths and indents did not meet where depth x indent crosses the 128-blank table with an indent that does not divide it); the indent-chains family (C04 and C10) enumerates depth x indent around the fixed indentation tables, with and without siblings, Sort and Tab. The family also exposed a genuine defect of pretty.SEN from depth 128 on (repaired)',
+ 'C04-8': 'strengthened: missed at first (no string with a UTF-8 lead byte directly before a quote, backslash or control character); the byte-sequence family writes every string of up to 2 (quick) / 3 (thorough) bytes over nine byte classes as value and as key',
+ 'C05-7': 'strengthened: missed at first (a path ending in a bare descent only had the no-panic and determinism oracle); such results must now be, as a multiset, the nodes below the start nodes, each exactly once (with, without, or with the container start nodes)',
+ 'C05-9': 'a filter-script defect (a multi-valued operand that selects nothing stored as nil instead of Nothing): not caught by C05 (no comparison of an empty multi-valued operand with null in its filter alphabet); caught by C12 (operator x operand-kind matrix)',
+ 'C06-7': 'strengthened: missed at first by C06 (the BFS merges a token that starts with 0xEF with every other token, and the harness reader panicked on an empty buffer instead of answering 0, nil); C06 gained the byte-order-mark look-ahead family (prefixes of the mark and near misses under every split into reads) and the chunk reader now follows io.Reader for empty buffers and reports 10000 such calls in a row as non-termination. C03 catches it as well',
+ 'C07-7': 'strengthened: missed at first (Unmarshal was only called on well-formed text); every parser kind and the pooled functions gained Unmarshal on malformed text and on a type mismatch',
+ 'C07-8': 'strengthened: missed at first (no valid document with a \\uXXXX escape and literals after an aborted escape); a document with escaped keys and values and all three literals added',
+ 'C07-9': 'a process-wide plan cache keyed wrongly against OmitEmpty: not caught by C07 (instances, not type caches); caught by C15 (first-use history leg) and C08 (plan-cache group)',
+ 'C08-8': 'strengthened: missed at first (no shared script with a list operand); a script and a filter expression whose list constants hold Go ints and a float32 added, snapshotted as constructed',
+ 'C08-9': 'strengthened: missed at first (no Unmarshal of malformed text among the concurrent calls); added to the oj and sen parse groups. C07 (pooled kind) catches it as well',
+ 'C09-8': 'an accept-set defect of oj.Tokenizer (a top-level literal on the slow path followed by a comma): the wrong position is a consequence; caught by C01 (BFS, every byte from every state)',
  'C13-3': 'strengthened: missed at first (RemoveOne doing nothing is within "at most one location", which the check accepts); the *One forms are now also compared between simple and gen data ("behave the same on simple and gen data")',
  'C17-3': 'not caught by C17 (its documents have plain keys); it is a tokenizer defect: C02 gained the string-pair family (every ordered pair of string items in five two-string placements, so that what one string leaves behind in a front-end shows in the next) and catches it',
  'C19-1': 'strengthened: missed at first; the perturbation catalogue gained rename (same member count, different key set)',
  'C20-1': 'strengthened: missed at first (each has no description in doc.go, asmref does not model it); an item-independence leg compares each(list) with the concatenation of each([item])',
 }
-ALSO = {'C16-3': 'C03', 'C10-2': 'C10, C02', 'C17-3': 'C02', 'C01-4': 'C07', 'C03-5': 'C07', 'C09-4': 'C07', 'C02-5': 'C07', 'C06-5': 'C07', 'C04-5': 'C07', 'C10-5': 'C07', 'C05-6': 'C12', 'C08-5': 'C08, C07', 'C17-5': 'C03', 'C17-6': 'C03', 'C12-6': 'C14', 'C14-5': 'C12', 'C16-4': 'C16, C15', 'C16-5': 'C15', 'C18-5': 'C18, C02, C03', 'C13-4': 'not caught (outside the stated data forms)'}
+ALSO = {'C16-3': 'C03', 'C10-2': 'C10, C02', 'C17-3': 'C02', 'C01-4': 'C07', 'C03-5': 'C07', 'C09-4': 'C07', 'C02-5': 'C07', 'C06-5': 'C07', 'C04-5': 'C07', 'C10-5': 'C07', 'C05-6': 'C12', 'C08-5': 'C08, C07', 'C17-5': 'C03', 'C17-6': 'C03', 'C12-6': 'C14', 'C14-5': 'C12', 'C16-4': 'C16, C15', 'C16-5': 'C15', 'C18-5': 'C18, C02, C03', 'C13-4': 'not caught (outside the stated data forms)', 'C02-7': 'C07', 'C02-8': 'C07', 'C02-9': 'C03', 'C03-7': 'C02', 'C05-9': 'C12', 'C06-7': 'C06, C03', 'C07-9': 'C15, C08', 'C08-9': 'C08, C07', 'C09-8': 'C01'}
 verify = {}
 for l in open(os.path.join(SRC, 'verify.log')):
     m = re.match(r'(C\d+-\d): pkg=(\S+) suite_passes_with_change=(\S+) demo_fails_with_change=(\S+) demo_passes_without_change=(\S+) confirmed=(\d)', l)
